@@ -63,6 +63,7 @@ func checkC15(c *an.Ctx) {
 	c.Rule("C15.8", "decode hooks (library contract): a function of the module with the shape of a mapstructure DecodeHookFunc never returns a nil value with a nil error (mapstructure v1.1.2 panics on it for every non-interface target)")
 	c.Rule("C15.9", "format decoders as reviewed (library contract, option table): on a decoder of encoding/json, yaml.v2 or go-toml built in the load scope no configuring call changes the dynamic types a document arrives with: json.Decoder.UseNumber is reported — json.Number has kind string without being a string, and the duration hook of mapstructure v1.1.2 asserts data.(string) on every string-kind input that is to become a time.Duration, so a bare number in a JSON document panics")
 	c.Summaries = append(c.Summaries, "mapstructure v1.1.2 StringToTimeDurationHookFunc: `if f.Kind() != reflect.String {return data}; … time.ParseDuration(data.(string))` — panics for json.Number (read in decode_hooks.go)")
+	c.Rule("C15.10", "loading waits for nobody (E8): no channel operation, Cond.Wait or polling loop is synchronously reachable in the module from the entry points of the load scope unless it has an unconditional waker — at load time no goroutine of taskctl is running, so a wait whose waker is a goroutine started elsewhere (a watcher's Run, say) never ends")
 	c.NotDecided = append(c.NotDecided,
 		"termination and panic-freedom inside yaml.v2, encoding/json, go-toml, mapstructure, text/template and doublestar on adversarial input (their bodies are outside the lint's scope)",
 		"nil-ness of struct fields (only map/slice elements, parameters fed from them and call results are tracked)",
@@ -102,6 +103,7 @@ func checkC15(c *an.Ctx) {
 	guardedDocumentMerges(c, fns, "C15.7")
 	decodeHooks(c, "C15.8")
 	decoderOptions(c, "C15.9", scope)
+	loadWaits(c, "C15.10", roots)
 	_ = p
 }
 
@@ -1117,4 +1119,19 @@ func touchesSetUnder(p *an.Prog, fn *ssa.Function, onCycle map[*ssa.Function]boo
 		}
 	}
 	return false
+}
+
+// loadWaits implements C15.10 (and C18.7 for the two loader entry points).
+func loadWaits(c *an.Ctx, rule string, roots []*ssa.Function) {
+	before := len(c.Obs)
+	boundedWaitsOpt(c, rule, roots, "loading the configuration", waitOpts{polls: true, onlyChans: true})
+	n := 0
+	for _, o := range c.Obs[before:] {
+		if o.Rule == rule {
+			n++
+		}
+	}
+	if n == 0 {
+		c.OK(rule, "load scope:channel-waits", roots[0].Pos(), "no channel operation, Cond.Wait or polling loop is synchronously reachable from the %d entry points of the load scope", len(roots))
+	}
 }
